@@ -37,17 +37,30 @@ TECHNIQUE = "relational runtime monitor (3-D partition k vs 2-D twin on restrict
 DESIGN_REF = "DESIGN.md 4 C06"
 WEIGHTS = ["none", "frac", "zeros"]
 REQUIRED_REACH = ["partition_count", "twin", "table_name", "tabbook", "ca_as_0th", "numsum",
-                  "class:table=CAT", "class:table=MR", "class:table=ARR", "class:square"]
+                  "class:table=CAT", "class:table=MR", "class:table=ARR", "class:square",
+                  "class:corpus"]
 BATCH = 20
 UNIT_TIMEOUT_S = 40
 
 
 def units(tier, seed):
+    from .. import corpus
+
     n = 500 if tier == "quick" else 30000
-    return [{"i": i, "seed": seed} for i in range(n)]
+    # W1 synthetic surveys, then W3: the real 3-D payloads of the fixture corpus
+    return [{"i": i, "seed": seed} for i in range(n)] + corpus.units(
+        tier, seed, reps=2 if tier == "quick" else 12)
 
 
 def make_case(unit):
+    if "corpus" in unit:
+        from .. import corpus
+
+        rel = corpus.fixture_paths()[unit["corpus"]]
+        g = gen.G("C06/corpus/%s/%s/%s" % (unit["seed"], unit["corpus"], unit["rep"]))
+        return {"mode": "corpus3d", "fixture": rel, "population": 1000,
+                "transforms": {} if unit["rep"] == 0 else
+                corpus.random_full_transforms(g, corpus.load(rel))}
     i = unit["i"]
     g = gen.G("C06/%s/%s" % (unit["seed"], i))
     mode = MODES[i % len(MODES)]
@@ -375,11 +388,46 @@ def _check_numsum(res, case):
     res.nontrivial = specs[0].n >= 6 and len(vals) >= 2
 
 
+def _check_corpus3d(res, case):
+    """Partition k of a real 3-D payload vs the 2-D payload sliced out of it at element k."""
+    from cr.cube.cube import Cube
+    from .. import corpus
+
+    resp = corpus.load(case["fixture"])
+    res.descriptor = {"fixture": case["fixture"], "transforms": case["transforms"]}
+    slices = corpus.table_slices(resp)
+    if slices is None:
+        res.skipped["corpus_not_a_plain_3d_cube"] += 1
+        return
+    res.classes.append("corpus")
+    tr = case["transforms"]
+    cube = Cube(json.loads(json.dumps(resp)), transforms=copy.deepcopy(tr),
+                population=case["population"], mask_size=4)
+    parts = read(cube, "partitions")
+    if not parts.ok:
+        res.skipped["corpus_partitions_unreadable"] += 1
+        return
+    res.check("partition_count", len(parts.value) == len(slices), "corpus/partition_count",
+              {"got": len(parts.value), "exp": len(slices)})
+    for k, resp2 in slices[:len(parts.value)]:
+        c2 = Cube(resp2, transforms=copy.deepcopy(tr), population=case["population"],
+                  mask_size=4)
+        p2 = read(c2, "partitions")
+        if not res.check("twin", p2.ok and len(p2.value) == 1, "corpus/twin/partitions",
+                         {"got": repr(p2)[:200]}):
+            continue
+        partcmp.compare_partitions(res, parts.value[k], p2.value[0], "twin", "corpus/twin",
+                                   skip=set(SKIP_3D))
+    res.nontrivial = len(slices) >= 2
+
+
 def check_case(case):
     res = CaseResult()
     mode = case["mode"]
     res.classes.append("mode=%s" % mode)
-    if mode == "3d":
+    if mode == "corpus3d":
+        _check_corpus3d(res, case)
+    elif mode == "3d":
         _check_3d(res, case)
     elif mode == "tabbook":
         _check_tabbook(res, case)
